@@ -1,5 +1,6 @@
 SPECIFICATION SpecMC
 CONSTANTS
+  Rot = 0
   Groups = {"mc-t"}
 INVARIANTS Inv_Ref Inv_NoCallAfterError Inv_Built Inv_Muts Inv_OpenOp
 CHECK_DEADLOCK FALSE
